@@ -52,4 +52,12 @@ def isReplyOf (g : List Char) (cmd echo pkt : Frame) : Py Bool :=
             && pkt.payload = null0418 then .ok true
     else .ok (ph = rx)
 
+/-- `binding_fsm._own_pkt(cmd, pkt)`: the packet a binding context reports for its own Offer / Accept -
+    the echo the send layer returned, or (when that was the peer's early reply) the command itself -/
+def ownPkt (cmd pkt : Frame) : Py Frame :=
+  match txHeader pkt, txHeader cmd with
+  | .error e, _ => .error e
+  | _, .error e => .error e
+  | .ok ph, .ok ch => .ok (if ph = ch then pkt else cmd)
+
 end Ramses
